@@ -11,9 +11,10 @@ echo "--- suite with change"; cargo test --offline 2>&1 | grep -E "^test result"
 SUITE_FAIL=$(cargo test --offline 2>&1 | grep -cE "^test result: FAILED|error(\[|:)")
 cp seeded/demo.rs tests/seeded_demo.rs
 cargo test --offline --test seeded_demo > /tmp/vs_with.log 2>&1; WITH=$?
-git stash -q -- src
+git diff -- src > "$WT/.seed_change.diff"
+git apply -R "$WT/.seed_change.diff"
 cargo test --offline --test seeded_demo > /tmp/vs_without.log 2>&1; WITHOUT=$?
-git stash pop -q
+git apply "$WT/.seed_change.diff"; rm -f "$WT/.seed_change.diff"
 rm -f tests/seeded_demo.rs
 echo "suite_failures=$SUITE_FAIL demo_with_change_exit=$WITH demo_without_change_exit=$WITHOUT"
 if [ "$SUITE_FAIL" = 0 ] && [ "$WITH" != 0 ] && [ "$WITHOUT" = 0 ]; then
